@@ -95,14 +95,11 @@ fn sanitize(id: &str, slot: &str, text: &str) -> String {
 }
 
 /// The server for a game with `text` in `slot` (None = all plain).
-fn server_for_cli(id: &'static str, slot: Option<(&'static str, String)>) -> ServerFn {
+fn server_for_cli(id: &'static str, slot: Vec<(&'static str, String)>) -> ServerFn {
     let game = gamedig::GAMES.get(id).unwrap();
     let fam = family_of_game(game).unwrap();
     let put = move |which: &str| -> Option<String> {
-        match &slot {
-            Some((s, t)) if *s == which => Some(t.clone()),
-            _ => None,
-        }
+        slot.iter().find(|(s, _)| *s == which).map(|(_, t)| t.clone())
     };
     match fam {
         Family::Valve(e) => {
@@ -413,14 +410,91 @@ fn loose_eq(a: &Value, b: &Value) -> bool {
 
 #[derive(Clone)]
 enum What {
-    Game { gi: usize },
+    /// `part` of `parts`: the assignments of one game are dealt round-robin over several cases (so that slow games spread over workers)
+    Game { gi: usize, part: usize, parts: usize },
     Invalid,
+    /// every id of the definitions table, `CHUNK` ids per case
+    AllIds { chunk: usize },
 }
 
-fn cases(_tier: Tier) -> Vec<(String, What)> {
-    let mut v: Vec<(String, What)> = GAMES_UNDER_TEST.iter().enumerate().map(|(gi, g)| (format!("cli game '{}': string classes x modes x formats", g.id), What::Game { gi })).collect();
-    v.push(("invalid invocations".into(), What::Invalid));
+const CHUNK: usize = 7;
+
+fn all_ids() -> Vec<&'static str> {
+    let mut v: Vec<&'static str> = gamedig::GAMES.keys().copied().collect();
+    v.sort();
     v
+}
+
+fn cases(tier: Tier) -> Vec<(String, What)> {
+    let mut v: Vec<(String, What)> = Vec::new();
+    for (gi, g) in GAMES_UNDER_TEST.iter().enumerate() {
+        // every Unreal 2 query waits for one-second read timeouts; two-slot assignments multiply the larger games in thorough
+        let parts = if g.id == "killingfloor" { 6 } else if tier.is_thorough() && g.slots.len() >= 3 { 4 } else { 1 };
+        for part in 0 .. parts {
+            v.push((format!("cli game '{}': string classes x modes x formats ({}/{parts})", g.id, part + 1), What::Game { gi, part, parts }));
+        }
+    }
+    v.push(("invalid invocations".into(), What::Invalid));
+    let ids = all_ids();
+    for chunk in 0 .. ids.len().div_ceil(CHUNK) {
+        let part = &ids[chunk * CHUNK .. ((chunk + 1) * CHUNK).min(ids.len())];
+        v.push((format!("every game id of the definitions table: {} .. {}", part[0], part[part.len() - 1]), What::AllIds { chunk }));
+    }
+    v
+}
+
+/// Judge one CLI run against what the library returned in-process for the same server.
+fn judge(format: &str, want: &Option<Value>, lib_err: Option<String>, r: &Run) -> Option<(String, String)> {
+    match (want, r.code) {
+        (None, Some(c)) if c != 0 && c != 101 && !r.stderr.contains("panicked at") => None, // library fails too: clean error
+        (None, c) => Some(("error-not-clean".into(), format!("library query fails ({lib_err:?}) but CLI exit {c:?}, stderr {:?}", clip(&r.stderr, 200)))),
+        (Some(_), c) if c != Some(0) => Some((format!("exit-status:{}", if r.stderr.contains("panicked at") { "panic" } else { "error" }), format!("exit {c:?}, stderr {:?}", clip(&r.stderr, 300)))),
+        (Some(w), _) => {
+            let out = String::from_utf8_lossy(&r.stdout).to_string();
+            match format {
+                "debug" => if out.trim().is_empty() { Some(("empty-output:debug".into(), "exit 0 with empty stdout".into())) } else { None },
+                "json" | "json-pretty" => {
+                    match serde_json::from_str::<Value>(&out) {
+                        Err(e) => Some((format!("not-well-formed:{format}"), format!("{e}: {:?}", clip(&out, 200)))),
+                        Ok(v) => if canon(v.clone()) == *w { None } else { Some((format!("not-faithful:{format}"), format!("differs from the library's value at {}", first_diff(w, &canon(v)).unwrap_or_default()))) },
+                    }
+                }
+                "xml" => {
+                    match xml_leaves(&out) {
+                        Err(e) => Some(("not-well-formed:xml".into(), format!("{e}: {:?}", clip(&out, 300)))),
+                        Ok(mut leaves) => {
+                            let mut wl = Vec::new();
+                            json_leaves(w, &mut wl);
+                            leaves.sort();
+                            wl.sort();
+                            if leaves == wl { None } else {
+                                let missing: Vec<&String> = wl.iter().filter(|x| !leaves.contains(x)).take(3).collect();
+                                Some(("not-faithful:xml".into(), format!("leaf values differ from the library's; e.g. missing {missing:?} ({} vs {} leaves)", leaves.len(), wl.len())))
+                            }
+                        }
+                    }
+                }
+                _ => {
+                    let t = out.trim();
+                    if t.is_empty() {
+                        Some((format!("empty-output:{format}"), format!("exit 0 with empty stdout; stderr {:?}", clip(&r.stderr, 200))))
+                    } else {
+                        let bytes = if format == "bson-hex" { hex::decode(t).map_err(|e| e.to_string()) } else {
+                            use base64::Engine;
+                            base64::prelude::BASE64_STANDARD.decode(t).map_err(|e| e.to_string())
+                        };
+                        match bytes.and_then(|b| bson::Document::from_reader(&mut &b[..]).map_err(|e| e.to_string())) {
+                            Err(e) => Some((format!("not-well-formed:{format}"), e)),
+                            Ok(doc) => {
+                                let v = canon(bson::Bson::Document(doc).into_relaxed_extjson());
+                                if loose_eq(&v, w) { None } else { Some((format!("not-faithful:{format}"), format!("differs from the library's value at {}", first_diff(w, &v).unwrap_or_default()))) }
+                            }
+                        }
+                    }
+                }
+            }
+        }
+    }
 }
 
 struct Run {
@@ -448,12 +522,14 @@ impl Prop for C19 {
     fn exhaustive_when_uncapped(&self) -> bool { true }
     fn rule(&self) -> String {
         "the real gamedig_cli binary (built from the working tree, hooks off) is run as a subprocess against loopback servers \
-         driven by the reference models: 17 game ids (one or more per protocol family) x 2 output modes x 6 formats x string-class \
+         driven by the reference models. (1) 17 game ids (one or more per protocol family) x 2 output modes x 6 formats x string-class \
          assignments: every server-supplied string slot (name, map, version, keywords, player name, rule key, rule value, \
          description) takes each class of {plain, markup <&>\"', control characters, non-ASCII, surrounding/inner spaces, empty}, \
          one non-plain slot at a time (quick) / two (thorough). Oracle: exit 0 and exactly one document that parses (json: \
          serde_json; xml: a strict XML 1.1 well-formedness checker; bson: hex/base64 decode + BSON parse; debug: non-empty) and \
-         whose values equal what the library returns in-process for the same server. invalid invocations (unknown game, \
+         whose values equal what the library returns in-process for the same server. (2) every id of the definitions table (97, \
+         Eco over loopback HTTP) against its family's seed server: 2 of the 12 (mode, format) pairs per id, rotating, in the quick tier; \
+         all 12 in thorough. (3) invalid invocations (unknown game, \
          unresolvable host, closed UDP port, refused TCP, each flag with missing / empty / 0 / -1 / non-numeric / out-of-range \
          values): non-zero exit other than 101, a message on stderr, no 'panicked at'. distinct_nontrivial = distinct (game, \
          slot, class, mode, format, verdict) tuples"
@@ -473,22 +549,36 @@ impl Prop for C19 {
         }
         let ip = IpAddr::V4(Ipv4Addr::LOCALHOST);
         match what {
-            What::Game { gi } => {
+            What::Game { gi, part, parts } => {
                 let g = &GAMES_UNDER_TEST[gi];
                 let game = gamedig::GAMES.get(g.id).unwrap();
-                let mut assignments: Vec<Option<(&'static str, &'static str, String)>> = vec![None];
+                let mut assignments: Vec<Vec<(&'static str, &'static str, String)>> = vec![vec![]];
+                let mut singles: Vec<(&'static str, &'static str, String)> = Vec::new();
                 for slot in g.slots {
                     // (every Unreal 2 query waits for a one-second read timeout: one slot in the quick tier)
                     if g.id == "killingfloor" && !tier.is_thorough() && *slot != "rule-key" {
                         continue;
                     }
                     for (cname, ctext) in CLASSES.iter().skip(1) {
-                        assignments.push(Some((slot, cname, sanitize(g.id, slot, ctext))));
+                        singles.push((slot, cname, sanitize(g.id, slot, ctext)));
+                    }
+                }
+                for a in &singles {
+                    assignments.push(vec![a.clone()]);
+                }
+                // thorough: every two different slots non-plain at once (all class pairs)
+                if tier.is_thorough() && g.id != "killingfloor" {
+                    for (i, a) in singles.iter().enumerate() {
+                        for b in singles.iter().skip(i + 1) {
+                            if a.0 != b.0 {
+                                assignments.push(vec![a.clone(), b.clone()]);
+                            }
+                        }
                     }
                 }
                 let mut n = 0u64;
-                for a in assignments {
-                    let server_fn = server_for_cli(g.id, a.clone().map(|(s, _, t)| (s, t)));
+                for a in assignments.into_iter().enumerate().filter(|(i, _)| i % parts == part).map(|(_, a)| a) {
+                    let server_fn = server_for_cli(g.id, a.iter().map(|(s, _, t)| (*s, t.clone())).collect());
                     let server = if g.tcp { super::c12::spawn_tcp_pub(ip, server_fn.clone(), usize::MAX) } else { super::c12::spawn_udp_pub(ip, server_fn.clone(), usize::MAX) };
                     let Some(server) = server else {
                         ctx.violation("MACHINERY:loopback-unavailable", &[], "cannot bind 127.0.0.1", "", "", vec![]);
@@ -502,10 +592,7 @@ impl Prop for C19 {
                         Ok(r) => (Some(to_json(&r.as_json())), Some(to_json(&r.as_original()))),
                         Err(_) => (None, None),
                     };
-                    let slot_desc = match &a {
-                        None => "all plain".to_string(),
-                        Some((s, c, _)) => format!("{s}={c}"),
-                    };
+                    let slot_desc = if a.is_empty() { "all plain".to_string() } else { a.iter().map(|(s, c, _)| format!("{s}={c}")).collect::<Vec<_>>().join(" + ") };
                     for mode in MODES {
                         for format in FORMATS {
                             // Unreal 2 queries always wait for one read timeout per list: fewer combinations in the quick tier
@@ -524,56 +611,7 @@ impl Prop for C19 {
                                 }
                             }
                             let want = if mode == "generic" { &lib_generic } else { &lib_specific };
-                            let verdict: Option<(String, String)> = match (want, r.code) {
-                                (None, Some(c)) if c != 0 && c != 101 && !r.stderr.contains("panicked at") => None, // library fails too: clean error
-                                (None, c) => Some(("error-not-clean".into(), format!("library query fails ({:?}) but CLI exit {c:?}, stderr {:?}", lib.as_ref().err().map(|e| e.kind.clone()), clip(&r.stderr, 200)))),
-                                (Some(_), c) if c != Some(0) => Some((format!("exit-status:{}", if r.stderr.contains("panicked at") { "panic" } else { "error" }), format!("exit {c:?}, stderr {:?}", clip(&r.stderr, 300)))),
-                                (Some(w), _) => {
-                                    let out = String::from_utf8_lossy(&r.stdout).to_string();
-                                    match format {
-                                        "debug" => if out.trim().is_empty() { Some(("empty-output:debug".into(), "exit 0 with empty stdout".into())) } else { None },
-                                        "json" | "json-pretty" => {
-                                            match serde_json::from_str::<Value>(&out) {
-                                                Err(e) => Some((format!("not-well-formed:{format}"), format!("{e}: {:?}", clip(&out, 200)))),
-                                                Ok(v) => if canon(v.clone()) == *w { None } else { Some((format!("not-faithful:{format}"), format!("differs from the library's value at {}", first_diff(w, &canon(v)).unwrap_or_default()))) },
-                                            }
-                                        }
-                                        "xml" => {
-                                            match xml_leaves(&out) {
-                                                Err(e) => Some(("not-well-formed:xml".into(), format!("{e}: {:?}", clip(&out, 300)))),
-                                                Ok(mut leaves) => {
-                                                    let mut wl = Vec::new();
-                                                    json_leaves(w, &mut wl);
-                                                    leaves.sort();
-                                                    wl.sort();
-                                                    if leaves == wl { None } else {
-                                                        let missing: Vec<&String> = wl.iter().filter(|x| !leaves.contains(x)).take(3).collect();
-                                                        Some(("not-faithful:xml".into(), format!("leaf values differ from the library's; e.g. missing {missing:?} ({} vs {} leaves)", leaves.len(), wl.len())))
-                                                    }
-                                                }
-                                            }
-                                        }
-                                        _ => {
-                                            let t = out.trim();
-                                            if t.is_empty() {
-                                                Some((format!("empty-output:{format}"), format!("exit 0 with empty stdout; stderr {:?}", clip(&r.stderr, 200))))
-                                            } else {
-                                                let bytes = if format == "bson-hex" { hex::decode(t).map_err(|e| e.to_string()) } else {
-                                                    use base64::Engine;
-                                                    base64::prelude::BASE64_STANDARD.decode(t).map_err(|e| e.to_string())
-                                                };
-                                                match bytes.and_then(|b| bson::Document::from_reader(&mut &b[..]).map_err(|e| e.to_string())) {
-                                                    Err(e) => Some((format!("not-well-formed:{format}"), e)),
-                                                    Ok(doc) => {
-                                                        let v = canon(bson::Bson::Document(doc).into_relaxed_extjson());
-                                                        if loose_eq(&v, w) { None } else { Some((format!("not-faithful:{format}"), format!("differs from the library's value at {}", first_diff(w, &v).unwrap_or_default()))) }
-                                                    }
-                                                }
-                                            }
-                                        }
-                                    }
-                                }
-                            };
+                            let verdict = judge(format, want, lib.as_ref().err().map(|e| format!("{:?}", e.kind)), &r);
                             ctx.distinct_key(&(g.id, slot_desc.clone(), mode, format, verdict.as_ref().map(|v| v.0.clone())));
                             if let Some((class, detail)) = verdict {
                                 ctx.violation(format!("cli:{class}"), &[], format!("game {} mode {mode} format {format} with {slot_desc}: {detail}", g.id), panic_kind(&clip(&String::from_utf8_lossy(&r.stdout), 400)), "one well-formed document with the library's values, exit 0", vec![]);
@@ -586,6 +624,82 @@ impl Prop for C19 {
                 ctx.counters.states += n;
                 ctx.counters.transitions += n;
                 ctx.sample(serde_json::json!({"case": label, "cli_runs": n}));
+            }
+            What::AllIds { chunk } => {
+                let ids = all_ids();
+                let part: Vec<&'static str> = ids[chunk * CHUNK .. ((chunk + 1) * CHUNK).min(ids.len())].to_vec();
+                let mut n = 0u64;
+                for (k, id) in part.iter().enumerate() {
+                    let gidx = chunk * CHUNK + k;
+                    let game = gamedig::GAMES.get(id).unwrap();
+                    let fam = family_of_game(game);
+                    // the loopback server of the game's family (Eco: a one-shot HTTP server per connection)
+                    let tcp = matches!(fam, Some(Family::Java | Family::Legacy(_) | Family::McAuto | Family::McLegacyAuto));
+                    let unreal = matches!(fam, Some(Family::Unreal2));
+                    let eco_body = super::eco::gen_eco(&mut crate::vnet::Chooser::new(&[])).json().into_bytes();
+                    let mut combos: Vec<(&str, &str)> = Vec::new();
+                    for (mi, mode) in MODES.iter().enumerate() {
+                        for (fi, format) in FORMATS.iter().enumerate() {
+                            // quick: two of the twelve (mode, format) pairs per id, rotating with the id's index so that every
+                            // pair is used by many ids; thorough: all twelve
+                            let take = tier.is_thorough() || (fi == gidx % 6 && mi == 0) || (fi == (gidx + 3) % 6 && mi == 1);
+                            if take && !(unreal && !tier.is_thorough() && mi == 1) {
+                                combos.push((mode, format));
+                            }
+                        }
+                    }
+                    let server = match fam {
+                        None => None,
+                        Some(_) => {
+                            let sf = crate::targets::server_for_game(game).unwrap();
+                            let l = if tcp { super::c12::spawn_tcp_pub(ip, sf, usize::MAX) } else { super::c12::spawn_udp_pub(ip, sf, usize::MAX) };
+                            let Some(l) = l else {
+                                ctx.violation("MACHINERY:loopback-unavailable", &[], "cannot bind 127.0.0.1", "", "", vec![]);
+                                return;
+                            };
+                            Some(l)
+                        }
+                    };
+                    let port_for = |_: ()| -> u16 {
+                        match &server {
+                            Some(l) => l.port,
+                            None => super::eco::serve_once(ip, eco_body.clone(), 0).0,
+                        }
+                    };
+                    let ts = TimeoutSettings::new(Some(Duration::from_secs(2)), Some(Duration::from_secs(2)), Some(Duration::from_secs(2)), 0).ok();
+                    let lib = gamedig::query_with_timeout_and_extra_settings(game, &ip, Some(port_for(())), ts, None);
+                    let (lib_generic, lib_specific) = match &lib {
+                        Ok(r) => (Some(to_json(&r.as_json())), Some(to_json(&r.as_original()))),
+                        Err(_) => (None, None),
+                    };
+                    if lib.is_err() {
+                        // the reference server of every family answers its own client: anything else is a harness fault
+                        ctx.violation("MACHINERY:library-query-fails-against-reference-server", &[], format!("{id}: {:?}", lib.as_ref().err()), "", "", vec![]);
+                        continue;
+                    }
+                    for (mode, format) in combos {
+                        n += 1;
+                        crate::crumb::mark(ctx.case, &[n as u32]);
+                        let mk = |port: u16| -> Vec<String> { ["query", "-g", id, "-i", "127.0.0.1", "-p", &port.to_string(), "-f", format, "-o", mode, "--read-timeout", "1", "--connect-timeout", "1"].iter().map(|s| s.to_string()).collect() };
+                        let mut r = run_cli(&mk(port_for(())));
+                        for _ in 0 .. 2 {
+                            if r.code != Some(0) && (r.stderr.contains("PacketReceive") || r.stderr.contains("PacketSend")) {
+                                r = run_cli(&mk(port_for(())));
+                            }
+                        }
+                        let want = if mode == "generic" { &lib_generic } else { &lib_specific };
+                        let verdict = judge(format, want, None, &r);
+                        ctx.distinct_key(&(*id, mode, format, verdict.as_ref().map(|v| v.0.clone())));
+                        if let Some((class, detail)) = verdict {
+                            ctx.violation(format!("cli:{class}"), &[], format!("game {id} mode {mode} format {format} (seed state): {detail}"), panic_kind(&clip(&String::from_utf8_lossy(&r.stdout), 400)), "one well-formed document with the library's values, exit 0", vec![]);
+                        }
+                    }
+                    drop(server);
+                }
+                ctx.counters.evaluations += n;
+                ctx.counters.states += n;
+                ctx.counters.transitions += n;
+                ctx.sample(serde_json::json!({"case": label, "cli_runs": n, "ids": part}));
             }
             What::Invalid => {
                 // a UDP port with nothing behind it and a TCP port that refuses
